@@ -376,6 +376,62 @@ func runC11(c *Ctx) {
 			}
 		}
 	}
+	// a signatures array with a non-signature element (null, undefined, [], h'') at each position;
+	// and a nil *Signature entry on the Go side
+	for n := 1; n <= 4; n++ {
+		for bad := 0; bad < n; bad++ {
+			for name, elem := range map[string]*Node{"null": refcbor.NNull(), "undefined": refcbor.NUndef(), "empty-array": refcbor.NArr(), "bstr": refcbor.NBstr([]byte{}), "int": refcbor.NInt(0), "two-array": refcbor.NArr(refcbor.NBstr([]byte{}), refcbor.NMap())} {
+				var sigs []*Node
+				for j := 0; j < n; j++ {
+					if j == bad {
+						sigs = append(sigs, elem)
+						continue
+					}
+					sigs = append(sigs, refcbor.NArr(refcbor.NBstr([]byte{0xa1, 0x01, 0x26}), refcbor.NMap(), refcbor.NBstr(mon.FixedSig)))
+				}
+				b := refcbor.Encode(refcbor.NTag(98, refcbor.NArr(refcbor.NBstr([]byte{}), refcbor.NMap(), refcbor.NBstr([]byte("p")), refcbor.NArr(sigs...))))
+				var m cose.SignMessage
+				var err error
+				inn := map[string]any{"wire": mon.FullHex(b), "n": n, "bad_element_at": bad, "element": name}
+				if guard(rec, "SignMessage.UnmarshalCBOR", inn, func() { err = m.UnmarshalCBOR(b) }) {
+					continue
+				}
+				rec.Eval(1)
+				rec.Class(fmt.Sprintf("decode/n=%d/non-signature-element=%s/at=%d", n, name, bad))
+				if err == nil {
+					rec.Violate("decoded-empty", fmt.Sprintf("n=%d/element=%s", n, name), "decoder accepted a COSE_Sign whose signatures array holds an element that is not a COSE_Signature", inn)
+				}
+			}
+			// Go side: nil entry
+			m := &cose.SignMessage{Headers: cose.Headers{Protected: cose.ProtectedHeader{}, Unprotected: cose.UnprotectedHeader{}}, Payload: []byte("p")}
+			vs := make([]cose.Verifier, n)
+			for j := 0; j < n; j++ {
+				if j == bad {
+					m.Signatures = append(m.Signatures, nil)
+				} else {
+					m.Signatures = append(m.Signatures, &cose.Signature{Headers: cose.Headers{Protected: cose.ProtectedHeader{int64(1): k.Alg}}, Signature: mon.FixedSig})
+				}
+				vs[j] = &mon.SpyVerifier{Alg: k.Alg}
+			}
+			inn := map[string]any{"n": n, "nil_entry_at": bad}
+			var out []byte
+			var merr, verr error
+			if guard(rec, "SignMessage with nil entry", inn, func() {
+				out, merr = m.MarshalCBOR()
+				verr = m.Verify(nil, vs...)
+			}) {
+				continue
+			}
+			rec.Eval(2)
+			rec.Class(fmt.Sprintf("n=%d/nil-entry-at=%d", n, bad))
+			if merr == nil {
+				rec.Violate("empty-signature-encoded", fmt.Sprintf("n=%d/nil-entry", n), "MarshalCBOR emitted a COSE_Sign with a nil signature entry: "+hexs(out), inn)
+			}
+			if verr == nil {
+				rec.Violate("empty-signature-verified", fmt.Sprintf("n=%d/nil-entry", n), "Verify returned nil with a nil signature entry", inn)
+			}
+		}
+	}
 	rec.Require("SignMessage.Verify", 300)
 	rec.RequireClasses(100)
 	rec.Extra("grid", "for every n in 1..6: all 2^n corrupted subsets, all 2^n-1 emptied subsets, all transpositions, rotation, missing/surplus verifier, wrong key at each index, failing verifier/signer at each index - enumerated completely; header contents, keys and payloads are seeded samples")
